@@ -1666,13 +1666,16 @@ def cancel_crash_run(workload: str, j_sym: Any, k_sym: Any, max_k: int = 14) -> 
 # ----------------------------------------------------------------------------------------------- statement-level handler race
 def handler_stmt_race_run(prop: str, workload: str, j_sym: Any, k_sym: Any, pick_sym: Any, monitors: tuple[str, ...] = ("C02", "C06"),
                           compare: str = "reference", max_k: int = 90, a_pick_sym: Any = 0,
-                          inject: Callable[[World], None] | None = None, post: Callable[[World, dict[str, Any], Any], tuple[str, Any] | None] | None = None) -> bool:
+                          inject: Callable[[World], None] | None = None, post: Callable[[World, dict[str, Any], Any], tuple[str, Any] | None] | None = None,
+                          k2_sym: Any = None, pick2_sym: Any = 0) -> bool:
     """Two workers, one pre-emption, every pair of handlers the run offers: the handler of the j-th
     delivered message (worker A) is stopped just before its k-th SQL statement and another
     deliverable message (the pick-th of those visible at that instant) is handled completely by
     worker B; then A continues with whatever it had read before.  A itself is any of the (<= 3)
     oldest deliverable messages at step j.  With ``inject`` a client request (signal, cancel) is
-    accepted right before step j, so its handler is one of the two that race.  Real SQLite file; a position
+    accepted right before step j, so its handler is one of the two that race.  With ``k2_sym`` a
+    third worker C handles yet another message completely just before B's k2-th statement (three
+    workers, two nested pre-emptions).  Real SQLite file; a position
     inside A's open write transaction is not enabled (B would wait for the commit) and slips to the
     next statement outside one.  j, k and the pick are symbolic."""
     with hx.Path("handler_stmt_race:%s:%s" % (prop, workload)) as P:
@@ -1691,6 +1694,31 @@ def handler_stmt_race_run(prop: str, workload: str, j_sym: Any, k_sym: Any, pick
                     vis.sort(key=lambda r: (r["deliver_at"], r["id"]))
                     return vis
 
+                st2: dict[str, Any] = {"n": 0, "armed": False, "done": False, "at": None, "c": None}
+
+                def hook2(conn: Any, sql: str) -> None:
+                    # worker B's handler, pre-empted once by a third worker C
+                    if st2["done"] or not w._in_deliver:
+                        return
+                    st2["n"] += 1
+                    if not st2["armed"] and st2["n"] <= max_k and hx.decide_eq(k2_sym, st2["n"]):
+                        st2["armed"] = True
+                    if st2["armed"] and not conn.in_transaction and sql not in ("COMMIT", "ROLLBACK"):
+                        vis2 = visible()
+                        if not vis2:
+                            return
+                        st2["done"] = True
+                        st2["at"] = st2["n"]
+                        cand2 = vis2[:2] + ([vis2[-1]] if len(vis2) > 2 else [])
+                        row2 = cand2[hx.pick(pick2_sym, len(cand2))]
+                        st2["c"] = row2["message_type"]
+                        saved2 = (HOOKS.ctx, HOOKS.handler_base, w._in_deliver, HOOKS.on_statement)
+                        HOOKS.on_statement = None
+                        try:
+                            w.deliver(row2["id"])
+                        finally:
+                            HOOKS.ctx, HOOKS.handler_base, w._in_deliver, HOOKS.on_statement = saved2
+
                 def hook(conn: Any, sql: str) -> None:
                     if state["done"] or not w._in_deliver:
                         return  # only the handler proper is pre-empted (poll_one / ack races are C08's)
@@ -1708,7 +1736,7 @@ def handler_stmt_race_run(prop: str, workload: str, j_sym: Any, k_sym: Any, pick
                         row = cand[hx.pick(pick_sym, len(cand))]
                         state["b"] = row["message_type"]
                         saved = (HOOKS.ctx, HOOKS.handler_base, w._in_deliver, HOOKS.on_statement)
-                        HOOKS.on_statement = None
+                        HOOKS.on_statement = hook2 if k2_sym is not None else None
                         try:
                             w.deliver(row["id"])
                         finally:
@@ -1747,9 +1775,12 @@ def handler_stmt_race_run(prop: str, workload: str, j_sym: Any, k_sym: Any, pick
                 summ = summarize(snap)
                 if raced_at is None or state["at"] is None:
                     return True
-                what = "%s_inside_%s" % (state["b"], state["a"])
-                P.reached("%s step %d stmt %d" % (what, raced_at, state["at"]), {"workload": workload, "A": state["a"], "B": state["b"], "step": raced_at, "statement": state["at"], "sql": state["sql"]})
-                info = {"workload": workload, "worker_A_handles": state["a"], "worker_B_handles": state["b"], "at_step": raced_at, "before_statement": state["at"], "sql": state["sql"],
+                if k2_sym is not None and st2["at"] is None:
+                    return True  # the third worker never got in: covered by the two-worker obligations
+                what = "%s_inside_%s" % (state["b"], state["a"]) if k2_sym is None else "%s_inside_%s_inside_%s" % (st2["c"], state["b"], state["a"])
+                P.reached("%s step %d stmt %d/%s" % (what, raced_at, state["at"], st2["at"]), {"workload": workload, "A": state["a"], "B": state["b"], "C": st2["c"], "step": raced_at, "statement": state["at"], "statement_in_B": st2["at"], "sql": state["sql"]})
+                info = {"workload": workload, "worker_A_handles": state["a"], "worker_B_handles": state["b"], "worker_C_handles": st2["c"], "C_before_statement_of_B": st2["at"],
+                        "at_step": raced_at, "before_statement": state["at"], "sql": state["sql"],
                         "final": summ["stages"], "workflow": summ["workflow"], "errors": w.handler_errors[:3]}
                 if step >= MAX_STEPS:
                     return P.fail("%s/handler_race/%s/%s/no_termination" % (prop, workload, what), info)
